@@ -77,6 +77,12 @@ Proof.
   rewrite Hm. reflexivity.
 Qed.
 
+Lemma validb_valid c : validb c = true -> valid c.
+Proof.
+  destruct c; cbn [validb valid]; intros H; apply andb_prop in H; destruct H as [H1 H2]; split; auto.
+  apply Nat.leb_le. exact H1.
+Qed.
+
 Theorem holds_model c : valid c -> holds c (run_model c) = [].
 Proof.
   destruct c; cbn [valid]; intros Hv.
